@@ -231,6 +231,37 @@ pub fn judge(src: &str, o: &mut Outcome, detail: &Value) {
     let keys = |v: &Value| -> BTreeSet<String> { v.as_object().map(|m| m.keys().cloned().collect()).unwrap_or_default() };
     let parties = keys(&doc["parties"]);
     let env = keys(&doc["environment"]["properties"]);
+    // a profile carries values for the declared environment entries and parties: a client sends them under the keys
+    // the profile uses, so those must be declared keys, each value supplied must be there, and nothing else
+    {
+        let dot: String = parties.iter().chain(env.iter()).map(|k| format!("{}=v_{}\n", k.to_uppercase(), k.to_lowercase())).collect();
+        let file = scratch_file("profile.env", &dot);
+        o.evals += 1;
+        match run_tx3c_with(src, "pp", &["--profile-env-file".to_string(), format!("preview:{file}")]) {
+            Err(e) => viol(o, "tx3c|fails-with-a-profile", e),
+            Ok(b) => {
+                let pdoc: Value = serde_json::from_slice(&b).unwrap_or(Value::Null);
+                let prof = &pdoc["profiles"]["preview"];
+                for (section, declared) in [("parties", &parties), ("environment", &env)] {
+                    let got = keys(&prof[section]);
+                    if &got != declared {
+                        let kind = if got.iter().map(|k| k.to_lowercase()).collect::<BTreeSet<_>>() == declared.iter().map(|k| k.to_lowercase()).collect::<BTreeSet<_>>() {
+                            "spelling-differs"
+                        } else {
+                            "other-keys"
+                        };
+                        viol(o, &format!("tii|profile-keys-are-not-the-declared-keys|{section}|{kind}"), format!("the profile's {section} are keyed {got:?}, the interface declares {declared:?} (every one of them has a value in the env file)"));
+                    }
+                    for k in got.intersection(declared) {
+                        let want = format!("v_{}", k.to_lowercase());
+                        if prof[section][k].as_str() != Some(want.as_str()) {
+                            viol(o, &format!("tii|profile-value-differs|{section}"), format!("profile value of `{k}` is {}, the env file says {want}", prof[section][k]));
+                        }
+                    }
+                }
+            }
+        }
+    }
     let txs = keys(&doc["transactions"]);
     if txs != lowered.keys().cloned().collect::<BTreeSet<_>>() {
         viol(o, "tii|transaction-set-differs", format!("TII lists {txs:?}, program defines {:?}", lowered.keys().collect::<Vec<_>>()));
@@ -342,7 +373,7 @@ impl Prop for C17 {
          third parameter absent / unused / used / colliding after lower-casing; env fields used or not; with or without a policy) is written to disk and \
          compiled by the real `tx3c build --emit tii`; the file is read back: transaction set equal; embedded IR decodes to canonical(lower(P, tx)); \
          find_params(decoded) is a subset of the declared keys with identical spelling; every declared key the body uses is required under the same \
-         spelling; no two declared keys collide; a request built from exactly the declared keys passes parse_resolve_request and resolve_tx without \
+         spelling; no two declared keys collide; built once more with a profile whose env file gives a value to every party and environment entry: the profile's keys are exactly the declared ones, with those values; a request built from exactly the declared keys passes parse_resolve_request and resolve_tx without \
          MissingTxArg. The same for every distinct program of the typed generator (gen::prog) with <= 2 (thorough 3) deviations. Non-trivial = tx3c produced a TII that was compared; distinct = distinct sources."
             .into()
     }
